@@ -297,6 +297,10 @@ class Report:
                 return
         self.viol.append((signature, description, replay))
 
+    def is_known(self, signature):
+        """Does `signature` belong to a recorded (not repaired) finding?"""
+        return any(_sig_match(f, signature) for f in self.known)
+
     def finish(self, extra=None):
         self.cov['distinct_nontrivial'] = len(self._nontrivial)
         if extra:
